@@ -643,7 +643,7 @@ def gen_selections(ck, run):
     thorough = ck.tier == "thorough"
     # (a) the WSDL dimension: shapes x sampled (options, expression)
     idxs = range(N_SHAPES) if thorough else slice_indexes(ck, 260)
-    per = 12 if thorough else 24
+    per = 6 if thorough else 24
     for i in idxs:
         sh = shape_by_index(i)
         sels = [((None, None, None), weighted_expr(rng, sh)) for _ in range(per // 3)]
@@ -654,20 +654,20 @@ def gen_selections(ck, run):
     # (b) expressions of depth <= 2 exhaustively x options, on the core WSDLs
     d12 = all_exprs(1) + all_exprs(2, items_first=False)
     opts = all_opts()
-    core_b = CORE if thorough else CORE[:4]
+    core_b = CORE[:8] if thorough else CORE[:3]
     for ci, sh in enumerate(core_b):
         if thorough:
             os_ = opts
         else:
-            os_ = [(None, None, None)] + rng.sample(opts[1:], 7)
+            os_ = [(None, None, None)] + rng.sample(opts[1:], 5)
         run.group(sh, [(o, e) for o in os_ for e in d12], "b:depth<=2 exhaustive")
     # (c) depth 3 exhaustively (attribute access last) on core WSDLs, a few option settings
     d3 = all_exprs(3)
-    core_c = CORE[:8] if thorough else CORE[:3]
+    core_c = CORE[:6] if thorough else CORE[:3]
     for sh in core_c:
         ns = len(sh.services)
         os_ = [(None, None, None), (1 if ns > 1 else 0, None, None), (None, "PrtA", None),
-               ("SvcA", -1, OVERRIDE), ("zz", None, None), (None, 3, None)]
+               ("SvcA", -1, OVERRIDE)]
         if not thorough:
             os_ = os_[:1] + [rng.choice(os_[1:])]
         exprs = d3 if thorough else rng.sample(d3, len(d3) // 10)
@@ -846,7 +846,7 @@ def run(ck):
     run_ = Runner(ck)
     gen_selections(ck, run_)
     pre = preamble()
-    res = ck.run_cases("sel", pre, "sel_case", run_.cases, ["sel_agrees", "sel_spec_ok"], shard=500)
+    res = ck.run_cases("sel", pre, "sel_case", run_.cases, ["sel_agrees", "sel_spec_ok"], shard=250)
 
     # histories
     hist_cases, hist_meta = [], []
@@ -865,7 +865,7 @@ def run(ck):
         ck.seen(("hist", sh.key(), tuple(evs)), nontrivial=any(ev[0] == "clone" for ev in evs))
         ck.count("scope:e:histories")
         ck.count("history-calls", len(calls))
-    hres = ck.run_cases("hist", pre, "hist_case", hist_cases, ["hist_agrees", "hist_spec_ok"], shard=200)
+    hres = ck.run_cases("hist", pre, "hist_case", hist_cases, ["hist_agrees", "hist_spec_ok"], shard=90)
 
     for i in (5, len(run_.meta) // 3, len(run_.meta) // 2, len(run_.meta) - 7):
         if 0 <= i < len(run_.meta):
@@ -914,11 +914,11 @@ def run(ck):
         "expression) or history; non-trivial = a request was sent or one of the three *NotFound classes "
         "raised (histories: contains a clone)"
         % ("all of them" if ck.tier == "thorough" else "a seed-offset slice of 260",
-           12 if ck.tier == "thorough" else 24,
-           len(CORE) if ck.tier == "thorough" else 4,
-           "all" if ck.tier == "thorough" else "8",
+           6 if ck.tier == "thorough" else 24,
+           8 if ck.tier == "thorough" else 3,
+           "all" if ck.tier == "thorough" else "6",
            SERVICE_OPTS, PORT_OPTS,
-           "all 9025 x 6 option settings on 8 WSDLs" if ck.tier == "thorough"
+           "all 9025 x 4 option settings on 6 WSDLs" if ck.tier == "thorough"
            else "a tenth of the 9025 x 2 option settings on 3 WSDLs",
            len(hist_meta)))
     ck.exhaustive = ck.tier == "thorough"
